@@ -624,7 +624,7 @@ static void run_big(uint64_t which)
     vrt_sig(0, 0xb16 + which);
 }
 #define NBIGCASES 2
-static uint64_t nrandom(void) { return vrt_thorough ? 400000 : 40000; }
+static uint64_t nrandom(void) { return vrt_thorough ? 800000 : 150000; }
 static uint64_t ncases(void)
 {
     if (vrt_thorough) { scopes = thorough_scopes; nscopes = sizeof(thorough_scopes) / sizeof(scopes[0]); }
